@@ -26,6 +26,9 @@ package nsqlookupd
 // Identities: ordinarily the two peers are two nsqds (h0, h1). VerifC14_StepSharedNodeName lets
 // both connections announce ONE node name (verifC14Announce): registrations, pings and
 // disconnects stay per connection, a tombstone - which names the node - hides them all.
+// VerifC14_StepSameAnnouncedAddress (c14_sameaddr.go) lets them announce one and the same nsqd
+// address in every field (only the remote addresses differ) and pins that each connection's
+// registrations are its own.
 //
 // Where the statement is silent the model follows the implementation's choice instead of
 // demanding one: the presence of an EMPTY ephemeral key after a disconnect or after a topic-level
@@ -302,6 +305,8 @@ type verifC14World struct {
 	sawFatal            bool
 	sawTombstoneHitTwo  bool // one /topic/tombstone call hid two producers carrying the node name
 	sawDeleteOfKeyless  bool // /topic/delete of a topic without a topic key whose channel keys were still there
+	sawBothInLookup     bool // one /lookup answer listed both peers
+	sawBothInNodes      bool // one /nodes answer listed both peers
 }
 
 func verifC14NewWorld() *verifC14World {
@@ -772,6 +777,9 @@ func (w *verifC14World) checkLookup(t int) {
 		}
 		w.reach(3, "lookup-tombstone-lapsed", listed && hasTomb)
 	}
+	if cnt[0] > 0 && cnt[1] > 0 {
+		w.sawBothInLookup = true
+	}
 }
 
 func (w *verifC14World) checkNodes() {
@@ -843,6 +851,9 @@ func (w *verifC14World) checkNodes() {
 		}
 		w.reach(1, "nodes-node-listed", listed)
 		w.reach(1, "nodes-node-hidden-by-inactivity", !listed)
+	}
+	if cnt[0] > 0 && cnt[1] > 0 {
+		w.sawBothInNodes = true
 	}
 }
 
